@@ -778,6 +778,9 @@ def _norm_bytes(items):
     return SymBytes(items)
 
 
+HASH_SHORT_BYTES = [False]      # harnesses whose code under test looks tag bytes up in dicts switch this on (C10 blind_unpack)
+
+
 class SymBytes:
     """Concrete length; elements are Python ints or SymInt (0..255)."""
 
@@ -850,7 +853,12 @@ class SymBytes:
     def __bool__(self):
         return len(self.items) > 0
 
-    __hash__ = None  # type: ignore
+    def __hash__(self):
+        # dict/set probes with a short symbolic key (tag bytes): the bytes are concretised by forking, so the lookup is exact on every path
+        if len(self.items) > 2 or not HASH_SHORT_BYTES[0]:
+            raise TypeError('unhashable symbolic bytes')
+        vals = [it if isinstance(it, builtins.int) else EX.realize(bv(it)) for it in self.items]
+        return hash(builtins.bytes(v & 0xFF for v in vals))
 
     def startswith(self, p):
         p = list(p.items if isinstance(p, SymBytes) else p)
